@@ -49,6 +49,8 @@ def run_real(chk: Check, behaviours: list[dict], label: str, spec: dict | None =
         job = {"id": f"{label}{i}", "base": str(base), "spec": b.get("spec") or spec, "pkg": pkg, "core": corep, "existing": b.get("variant") or sc["existing"], "force": sc["force"], "pp": sc["pp"], "cwd": sc["cwd"], "fault": sc["fault"]}
         if b.get("spec_old"):
             job["spec_old"] = b["spec_old"]
+        if b.get("docname"):
+            job["docname"] = b["docname"]
         jobs.append(job)
     res = core.parallel_py(chk.scratch, "harness.w_genrun", jobs, timeout=1500)
     traces = []
@@ -106,7 +108,9 @@ def judge(chk: Check, traces: list[dict], label: str, clauses: tuple[str, ...]) 
                 loc["variant"] = t["_job"]["existing"]
             if t.get("_big"):
                 loc["big"] = True
-            chk.fail(f["clause"], loc, {"sc": t["sc"], "variant": t["_job"]["existing"], "big": bool(t.get("_big"))}, json.dumps(examples)[:400] + " err=" + t["_raw"].get("err", "")[:120])
+            if t["_job"].get("docname"):
+                loc["doc"] = t["_job"]["docname"]   # a catalogue document (one feature), not the default document of the tree variants
+            chk.fail(f["clause"], loc, {"sc": t["sc"], "variant": t["_job"]["existing"], "big": bool(t.get("_big")), "docname": t["_job"].get("docname", "")}, json.dumps(examples)[:400] + " err=" + t["_raw"].get("err", "")[:120])
     if nd > 3:
         chk.note_drift(f"{nd} runs in total whose result differs from the model's")
     t = traces[len(traces) // 2]
@@ -172,6 +176,9 @@ def replay(chk: Check, path: str) -> None:
     b = {"sc": sc, "result": "?", "viol": []}
     if rec["scenario"].get("variant") and rec["scenario"]["variant"] != sc["existing"]:
         b["variant"] = rec["scenario"]["variant"]
+    if rec["scenario"].get("docname"):
+        b["docname"] = rec["scenario"]["docname"]
+        b["spec"] = features.build([b["docname"]])
     if rec["scenario"].get("big"):
         b["spec"] = big_document(230)
     traces = run_real(chk, [b], "replay")
